@@ -823,21 +823,24 @@ struct LoadStaticConfigTask {
 }
 
 pub fn load_static_config(server: &mut Server, mut client: OptionalClient, path: Option<&str>) {
-    let task_id = server.new_task(
-        Box::new(LoadStaticConfigTask {
-            gatherer: DefaultGatherer::default(),
-            client_token: client.as_ref().map(|c| c.token),
-        }),
-        Timeout::None,
-    );
-
     let new_config;
 
     let config = match path {
         Some(path) if !path.is_empty() => {
             info!("loading static configuration at path {}", path);
-            new_config = Config::load_from_path(path)
-                .unwrap_or_else(|_| panic!("cannot load configuration from '{path}'"));
+            new_config = match Config::load_from_path(path) {
+                Ok(config) => config,
+                Err(config_err) => {
+                    // The path comes from a client (`ReloadConfiguration`): a file
+                    // the loader refuses is the client's error, not a reason to
+                    // take the main process (and the supervision of every worker)
+                    // down with a panic.
+                    client.finish_failure(format!(
+                        "cannot load configuration from '{path}': {config_err}"
+                    ));
+                    return;
+                }
+            };
             &new_config
         }
         _ => {
@@ -875,6 +878,17 @@ pub fn load_static_config(server: &mut Server, mut client: OptionalClient, path:
             return;
         }
     };
+
+    // The gathering task is created only once there is something to scatter: a
+    // task left behind by one of the early returns above would finish on its own
+    // (it expects no response) and send the client a second, OK, final answer.
+    let task_id = server.new_task(
+        Box::new(LoadStaticConfigTask {
+            gatherer: DefaultGatherer::default(),
+            client_token: client.as_ref().map(|c| c.token),
+        }),
+        Timeout::None,
+    );
 
     for (request_index, message) in config_messages.into_iter().enumerate() {
         let request = message.content;
